@@ -20,7 +20,7 @@ pub fn prop() -> HistProp {
         run_cfg: rc,
         gen_cfg: gc,
         nontrivial,
-        quick_cases: 8000,
+        quick_cases: 16000,
         thorough_cases: 150000,
         pressure_cases: (2000, 40000),
         assumptions: vec!["status bits in FAT[1] are not modified by the library (it keeps its dirty flag in the boot sector)"],
